@@ -1,33 +1,37 @@
 """C11 - all data sources are equivalent and the row window selects exactly its rows.  (structural clauses)
 
-R11.1 (BytesAI + siblings) every load_chunk implementation addresses the source with bounds produced by the one helper
-      that adds the window offset and checks the range (C10 R10.5 proves the helper for all windows / chunks); __getitem__
-      applies [from_idx:to_idx]; n_rows = to_idx - from_idx.
-R11.2 (AST) dispatch totality of make_wrapper: dict / ndarray / path, anything else raises; HDF5 opened read-only; the
-      leading-slash normalisation is idempotent.
-R11.3 (AST) field order and the set of data sets read come from the frame's channel mapping in every construction
-      branch, never from the source's own key order; the mappings are recomputed on every use.
-R11.4 (reaching definitions) inline data and write(data=dict) are merged into one dict wrapper; non-dict data together
-      with inline data raises; inline arrays are stored exactly as given (no early cast that later settings cannot undo).
+All rules are phrased over the value-flow normal form (sa/terms.py): a value is identified by the expression that
+computes it from parameters, fields and calls, whatever temporaries, helper functions or statement layout are used.
+
+R11.1 every load_chunk implementation addresses source rows with slice(from_idx + start, from_idx + stop) as produced
+      by the bounds helper (C10 R10.5 proves that arithmetic and its range checks for all windows / chunk sizes);
+      __getitem__ applies [from_idx:to_idx]; n_rows = (to_idx or total) - from_idx; an empty or out-of-range window
+      is refused.
+R11.2 dispatch totality of make_wrapper: dict / ndarray / path, anything else raises; HDF5 sources opened read-only.
+R11.3 field order and the set of data sets read come from the frame's channel mapping in every construction branch,
+      never from the source's own key order; the mapping is recomputed from the frame's channels on every use.
+R11.4 inline data and write(data=dict) are merged into one dict wrapper (write-time data overriding); non-dict data
+      together with inline data raises; inline arrays are stored exactly as given under the channel's data set name.
 Not decided: byte identity of whole files across source kinds.
 """
 
 from __future__ import annotations
 
-import ast
-
-from .. import AnalysisError
-from ..cfg import CFG
-from ..common import norm, try_const, kw
-from ..dataflow import ReachingDefs
-from ..index import Scope, walk_local
 from ..report import Check
+from ..terms import (SELF, NONE, A, K, ANY, Wild, match, subterms, contains, alternatives, is_call, call_name,
+                     call_arg, calls_in, int_norm, pp, find)
 
 LEVEL = "other"
 EXPLANATION = ("Sibling agreement of the wrapper classes on how a chunk is addressed (window offset, bounds), dispatch "
-               "totality, mapping-driven field order, and verbatim storage of inline data; the window arithmetic itself "
-               "is proved for all windows and chunk sizes by C10 R10.5. Byte identity across source kinds follows only "
-               "under numpy's semantics and is not decided.")
+               "totality, mapping-driven field order, and verbatim storage of inline data, all decided on the value-flow "
+               "normal form of the functions involved; the window arithmetic itself is proved for all windows and chunk "
+               "sizes by C10 R10.5. Byte identity across source kinds follows only under numpy's semantics and is not "
+               "decided.")
+
+DS = A(SELF, "_data_source")
+FROM = A(SELF, "_from_idx")
+TO = A(SELF, "_to_idx")
+NROWS = A(SELF, "_n_rows")
 
 
 def run(chk):
@@ -37,118 +41,237 @@ def run(chk):
     chk.guard(r11_4_inline, chk)
 
 
+def _plus(a, b):
+    return lambda t: t in (("bin", "+", a, b), ("bin", "+", b, a))
+
+
+def _all_terms(s):
+    for pc, t, _ in s.returns + s.raises:
+        yield t
+        yield from pc
+    for e in s.effects:
+        for t in (e.base, e.key, e.value):
+            if isinstance(t, tuple):
+                yield t
+        yield from e.pc
+
+
+def _is_window_slice(t) -> bool:
+    """slice(self._from_idx + start, self._from_idx + (self._n_rows if stop is None else stop))"""
+    if not is_call(t, "slice", 2) or t[1] != ("global", "slice"):
+        return False
+    lo, hi = t[2]
+    start, stop = ("param", "start"), ("param", "stop")
+    stop_or_all = ("ite", ("cmp", "is", stop, NONE), NROWS, stop)
+    return _plus(FROM, start)(lo) and (_plus(FROM, stop_or_all)(hi))
+
+
 def r11_1_window(chk):
-    ix = chk.ix
+    ix, te = chk.ix, chk.terms
     base = ix.get_class("SourceDataWrapper")
-    helper = base.lookup("_get_chunk_slice")
-    chk.require(helper is not None, "R11.1", "one-bounds-helper", "there is no single helper computing the chunk bounds",
-                base.where)
     impls = [c.methods["load_chunk"] for c in [base] + ix.subclasses(base) if "load_chunk" in c.methods]
     chk.floor("load_chunk implementations", len(impls), 2)
+    n_row_reads = 0
     for f in impls:
-        chk.consult(f)
-        subs = [n for n in walk_local(f.node) if isinstance(n, ast.Subscript) and "_data_source" in norm(n.value)
-                and not isinstance(n.ctx, ast.Store)]
-        rd = ReachingDefs(f)
-        for sub in subs:
-            idx = sub.slice
-            if isinstance(idx, ast.Name) and idx.id in ("loc", "key"):
-                continue  # data set selection, not row selection
-            at = rd.stmt_containing(sub)
-            flows = rd.expand(idx, at)
-            ok = any("_get_chunk_slice(start, stop)" in fl for fl in flows) and not isinstance(idx, ast.Slice)
-            chk.require(ok, "R11.1", f"rows-addressed-through-helper:{f.short}:{norm(sub)[:40]}",
-                        f"{f.short} addresses source rows with `{norm(idx)}`, not with the window-aware bounds helper: "
-                        f"from_idx / to_idx are ignored on this path", f"{f.module.relpath}:{sub.lineno}")
-        delegating = any(isinstance(n, ast.Call) and norm(n.func) == "super().load_chunk" for n in walk_local(f.node))
-        chk.require(bool(subs) or delegating, "R11.1", f"reads-or-delegates:{f.short}", "load_chunk neither reads the "
+        s = chk.summary(f)
+        seen = set()
+        reads = 0
+        for t in _all_terms(s):
+            for x in subterms(t):
+                if x[0] != "sub" or x in seen or not contains(x[1], DS):
+                    continue
+                seen.add(x)
+                idx = x[2]
+                if contains(idx, lambda y: y[0] in ("elem", "bound")) or idx[0] == "const" or \
+                        contains(idx, A(SELF, "_mapping")):
+                    continue  # selects a data set (by a key of the mapping), not rows
+                reads += 1
+                full = te.expand_calls(idx, s, depth=2)
+                ok = _is_window_slice(full)
+                chk.require(ok, "R11.1", f"rows-addressed-through-window:{f.short}:{pp(x[1])[:40]}",
+                            f"{f.short} addresses source rows with `{pp(full)[:160]}`, which is not "
+                            f"slice(from_idx + start, from_idx + stop): the row window is ignored or misapplied on "
+                            f"this path", f.where)
+        n_row_reads += reads
+        delegating = any(is_call(c, "load_chunk") and c[1][0] == "attr" and is_call(c[1][1], "super")
+                         for t in _all_terms(s) for c in calls_in(t))
+        chk.require(bool(reads) or delegating, "R11.1", f"reads-or-delegates:{f.short}", "load_chunk neither reads the "
                     "source nor delegates", f.where, nontrivial=False)
+    chk.floor("row-addressing reads of the data source", n_row_reads, 2)
     from . import c10
     tmp = Check("C10", "quick", 0, chk.ix, chk.cg, quiet=True)
     c10.r10_5_tiling(tmp)
     for o in tmp.obs:
         o.rule = "R11.1"
         chk.obs.append(o)
-    gi = base.lookup("__getitem__")
-    chk.require("data[self._from_idx:self._to_idx]" in norm(gi.node), "R11.1", "getitem-windowed",
-                "SourceDataWrapper.__getitem__ does not apply the row window", gi.where)
-    init = base.lookup("__init__")
-    s = norm(init.node)
-    chk.require("self._n_rows = self._to_idx - self._from_idx" in s and
-                "self._to_idx = to_idx if to_idx is not None else total_n_rows" in s, "R11.1", "n_rows=to-from",
-                "the number of rows is not to_idx - from_idx (open end = all rows)", init.where)
-    chk.require("if self._from_idx >= total_n_rows" in s and "if self._n_rows < 1" in s, "R11.1", "window-validated",
-                "an empty or out-of-range window is accepted", init.where)
+    gi = chk.summary(base.lookup("__getitem__"))
+    win = ("slice", FROM, TO, NONE)
+    rets = [t for _, t, _ in gi.returns]
+    chk.require(bool(rets) and all(t[0] == "sub" and t[2] == win for t in rets), "R11.1", "getitem-windowed",
+                "SourceDataWrapper.__getitem__ does not apply the row window [from_idx:to_idx] to what it returns",
+                gi.func.where)
+    init = chk.summary(base.lookup("__init__"))
+    frm, to = ("param", "from_idx"), ("param", "to_idx")
+    n_st = init.stores("_n_rows")
+    val = init.forward_fields(n_st[0].value) if len(n_st) == 1 else None
+    b = match(("bin", "-", ("ite", ("cmp", "is", to, NONE), Wild("total"), to), frm), val) if val else None
+    chk.require(b is not None and contains(b["total"], lambda y: y[0] == "attr" and y[2] == "shape"), "R11.1",
+                "n_rows=to-from", f"the number of rows is `{pp(val) if val else '?'}`, not (to_idx, or the total number "
+                f"of rows when it is None) - from_idx", init.func.where)
+    total = b["total"] if b else ANY
+    lits = [int_norm(init.forward_fields(c)) for pc, _, _ in init.raises for c in pc]
+    start_checked = any(l[0] == "cmp" and l[1] in (">=", ">") and l[2] == frm and l[3] == total for l in lits)
+    empty_checked = any(l[0] == "cmp" and l[1] == "<=" and l[3] == K(0) and l[2] == val for l in lits) if val else False
+    chk.require(start_checked and empty_checked, "R11.1", "window-validated",
+                "an empty or out-of-range window is accepted (no raise under `from_idx >= total rows` / "
+                "`n_rows < 1`)", init.func.where)
 
 
 def r11_2_dispatch(chk):
-    ix = chk.ix
-    mw = ix.get_method("SourceDataWrapper", "make_wrapper")
-    chk.consult(mw)
-    s = norm(mw.node)
-    for needle, what in (("if isinstance(source, dict)", "dict"), ("if isinstance(source, np.ndarray)", "ndarray"),
-                         ("not in ('h5', 'hdf5')", "hdf5 path"), ("raise ValueError", "other paths raise"),
-                         ("raise TypeError", "non path-like raises")):
-        chk.require(needle in s, "R11.2", f"dispatch:{what}", f"make_wrapper no longer handles: {what}", mw.where,
-                    nontrivial=False)
-    h5 = ix.get_method("HDF5DataWrapper", "__init__")
-    s = norm(h5.node)
-    chk.require("h5py.File(data_file_name, 'r')" in s, "R11.2", "hdf5-read-only", "HDF5 source not opened read-only",
-                h5.where)
-    chk.require("f'/{v}' if not v.startswith('/') else v" in s, "R11.2", "slash-normalisation-idempotent",
-                "data set paths are not normalised idempotently", h5.where)
+    mw = chk.summary("SourceDataWrapper", "make_wrapper")
+    src = ("param", "source")
+
+    def isinst(t, cls):
+        return ("call", ("global", "isinstance"), (src, ("global", cls)), ())
+    seen = {}
+    for pc, t, _ in mw.returns:
+        for _, alt in alternatives(t):
+            if alt[0] == "call":
+                seen.setdefault(call_name(alt), []).append((pc, alt))
+    for cls, test, what in (("DictDataWrapper", isinst(None, "dict"), "dict"),
+                            ("NumpyDataWrapper", isinst(None, "np.ndarray"), "ndarray")):
+        ok = cls in seen and all(test in pc for pc, _ in seen[cls]) and \
+            all(call_arg(c, 0) == src and call_arg(c, 1, "mapping") == ("param", "mapping") for _, c in seen[cls])
+        chk.require(ok, "R11.2", f"dispatch:{what}", f"make_wrapper does not hand a {what} source (and the mapping) to "
+                    f"{cls} exactly when the source is a {what}", mw.func.where, nontrivial=False)
+    ok = "HDF5DataWrapper" in seen and all(call_arg(c, 0) == src and call_arg(c, 1, "mapping") == ("param", "mapping")
+                                           and ("not", isinst(None, "dict")) in pc
+                                           and ("not", isinst(None, "np.ndarray")) in pc
+                                           for pc, c in seen.get("HDF5DataWrapper", []))
+    chk.require(ok, "R11.2", "dispatch:hdf5 path", "make_wrapper does not hand every other source to HDF5DataWrapper",
+                mw.func.where, nontrivial=False)
+    ext_raise = any(any(l[0] == "cmp" and l[1] == "not in" and l[3][0] in ("tuple", "list", "set")
+                        and {x[1] for x in l[3][1] if x[0] == "const"} == {"h5", "hdf5"} for l in pc)
+                    for pc, _, _ in mw.raises)
+    chk.require(ext_raise, "R11.2", "dispatch:other paths raise", "a path that is not *.h5 / *.hdf5 is not refused",
+                mw.func.where, nontrivial=False)
+    h5 = chk.summary("HDF5DataWrapper", "__init__")
+    opens = [c for t in _all_terms(h5) for c in calls_in(t, "File")]
+    chk.require(bool(opens) and all(call_arg(c, 1, "mode") == K("r") for c in opens), "R11.2", "hdf5-read-only",
+                "the HDF5 source is not opened read-only", h5.func.where)
+
+
+def _dict_constructions(s, t):
+    """How a dict-valued term is built: [(iterable, key, value)] for a dict comprehension, or for an empty dict filled
+    by subscript stores inside a loop of the same function."""
+    out = []
+    if t[0] == "comp" and t[1] == "dict" and len(t[3]) == 1 and not t[3][0][2]:
+        out.append((t[3][0][1], t[2][0], t[2][1]))
+    elif t in (("dict", ()), ("call", ("global", "dict"), (), ())):
+        for e in s.stores(kind="store_sub"):
+            if e.base == t and len(e.loops()) == 1 and e.loops()[0][0] == "for" and not e.pc:
+                out.append((e.loops()[0][2], e.key, e.value))
+    return out
 
 
 def r11_3_mapping(chk):
     ix = chk.ix
     base = ix.get_class("SourceDataWrapper")
-    lc = base.lookup("load_chunk")
-    s = norm(lc.node)
-    chk.require("for key, loc in self._mapping.items()" in s and "chunk[key] = self._data_source[loc][idx]" in s, "R11.3",
-                "fields-filled-from-mapping", "chunk fields are not filled by iterating the channel mapping", lc.where)
+    lc = chk.summary(base.lookup("load_chunk"))
+    rets = [t for _, t, _ in lc.returns]
+    fills = [e for e in lc.stores(kind="store_sub") if e.base in rets]
+    mapping = A(SELF, "_mapping")
+    ok = bool(fills)
+    for e in fills:
+        loops = e.loops()
+        if len(loops) != 1 or loops[0][0] != "for" or not contains(loops[0][2], mapping) or e.pc:
+            ok = False
+            continue
+        it, lid = loops[0][2], loops[0][1]
+        el = ("elem", it, lid)
+        if is_call(it, "items") and it[1][1] == mapping:
+            key, loc = ("sub", el, K(0)), ("sub", el, K(1))
+        elif it == mapping or (is_call(it, "keys") and it[1][1] == mapping):
+            key, loc = el, ("sub", mapping, el)
+        else:
+            ok = False
+            continue
+        # every alternative of the stored value is (derived from) this data set's rows
+        for _, alt in alternatives(e.value):
+            if e.key != key or not contains(alt, lambda y: y[0] == "sub" and y[1] == ("sub", DS, loc)):
+                ok = False
+    chk.require(ok and len(rets) == 1 and is_call(rets[0], ("zeros", "empty")) and
+                call_arg(rets[0], 1, "dtype") == A(SELF, "_dtype"), "R11.3", "fields-filled-from-mapping",
+                "the chunk (of the wrapper's dtype) is not filled field by field by iterating the channel mapping "
+                "(field <- rows of the data set the mapping names for it)", lc.func.where)
     fr = ix.get_class("FrameItem")
     p = fr.lookup("channel_name_mapping")
-    chk.require(p.kind == "property" and not any("cached" in d for d in p.decorators)
-                and "{ch.name: ch.dataset_name for ch in self.channels.value}" in norm(p.node), "R11.3",
+    ps = chk.summary(p)
+    chans = A(SELF, "channels", "value")
+    cons = [c for _, t, _ in ps.returns for c in _dict_constructions(ps, t)]
+    good = len(ps.returns) == 1 and len(cons) == 1 and cons[0][0] == chans and \
+        match(A(Wild("e", lambda y: y[0] == "elem" and y[1] == chans), "name"), cons[0][1]) is not None and \
+        match(A(Wild("e"), "dataset_name"), cons[0][2], match(A(Wild("e"), "name"), cons[0][1])) is not None
+    chk.require(p.kind == "property" and not any("cache" in d for d in p.decorators) and good, "R11.3",
                 "mapping-live-from-frame-channels", "the channel -> data set mapping is not recomputed from the frame's "
-                "channels (current data set names) on every use", p.where)
-    ch = ix.get_class("ChannelItem")
-    dn = ch.lookup("dataset_name")
-    chk.require("self._dataset_name if self._dataset_name is not None else self.name" in norm(dn.node), "R11.3",
-                "dataset-name-default", "a channel's data set name does not default to its name", dn.where)
-    mk = ix.get_method("LogicalFile", "_make_multi_frame_data")
-    calls = [n for n in walk_local(mk.node) if isinstance(n, ast.Call) and kw(n, "mapping") is not None]
+                "channels ({ch.name: ch.dataset_name}) on every use", p.where)
+    dn = chk.summary(ix.get_class("ChannelItem").lookup("dataset_name"))
+    want = ("ite", ("cmp", "is", A(SELF, "_dataset_name"), NONE), A(SELF, "name"), A(SELF, "_dataset_name"))
+    chk.require([t for _, t, _ in dn.returns] == [want], "R11.3", "dataset-name-default",
+                "a channel's data set name is not `its own data set name, or its name when none was given`",
+                dn.func.where)
+    mk = chk.summary("LogicalFile", "_make_multi_frame_data")
+    calls = [c for t in _all_terms(mk) for c in calls_in(t) if call_arg(c, kw="mapping") is not None]
+    calls = list(dict.fromkeys(calls))
     chk.floor("wrapper constructions", len(calls), 2)
+    fr_p = ("param", "fr")
     for c in calls:
-        ok = norm(kw(c, "mapping")) == "fr.channel_name_mapping" and norm(kw(c, "from_idx")) == "from_idx" \
-            and norm(kw(c, "to_idx")) == "to_idx"
-        chk.require(ok, "R11.3", f"branch-passes-mapping-and-window:{norm(c.func)[-28:]}",
-                    "a construction branch does not pass the frame's mapping and the row window", f"{mk.module.relpath}:{c.lineno}")
+        ok = call_arg(c, kw="mapping") == A(fr_p, "channel_name_mapping") and \
+            call_arg(c, kw="from_idx") == ("param", "from_idx") and call_arg(c, kw="to_idx") == ("param", "to_idx")
+        chk.require(ok, "R11.3", f"branch-passes-mapping-and-window:{call_name(c)}",
+                    "a construction branch does not pass the frame's mapping and the row window", mk.func.where)
+
+
+def _merge_parts(t):
+    """Operands of a dict merge, in override order: a | b, {**a, **b}, dict(a, **b)."""
+    if t[0] == "bin" and t[1] == "|":
+        return _merge_parts(t[2]) + _merge_parts(t[3])
+    if t[0] == "dict" and t[1] and all(k[0] == "dstar" for k, _ in t[1]):
+        out = []
+        for k, _ in t[1]:
+            out += _merge_parts(k[1])
+        return out
+    return [t]
 
 
 def r11_4_inline(chk):
-    ix = chk.ix
-    mk = ix.get_method("LogicalFile", "_make_multi_frame_data")
-    s = norm(mk.node)
-    chk.require("if isinstance(data, dict)" in s and "self._data_dict | data" in s, "R11.4", "dicts-merged",
-                "inline data and the dict passed to write() are not merged into one wrapper", mk.where)
-    chk.require("if self._data_dict:" in s and "raise TypeError" in s, "R11.4", "non-dict-with-inline-raises",
-                "non-dict data together with inline channel data is accepted", mk.where)
-    add = ix.get_method("LogicalFile", "add_channel")
-    chk.consult(add)
-    rd = ReachingDefs(add)
-    stores = [n for n in walk_local(add.node) if isinstance(n, ast.Assign)
-              and any(isinstance(t, ast.Subscript) and "_data_dict" in norm(t.value) for t in n.targets)]
+    mk = chk.summary("LogicalFile", "_make_multi_frame_data")
+    data = ("param", "data")
+    data_or_empty = ("ite", ("cmp", "is", data, NONE), ("dict", ()), data)
+    inline = A(SELF, "_data_dict")
+    wr = [c for t in _all_terms(mk) for c in calls_in(t, "DictDataWrapper")]
+    ok = bool(wr) and all(_merge_parts(call_arg(c, 0)) == [inline, data_or_empty] for c in wr)
+    chk.require(ok, "R11.4", "dicts-merged", "inline data and the dict passed to write() are not merged (write-time data "
+                "overriding) into the one dict wrapper", mk.func.where)
+    is_dict = ("call", ("global", "isinstance"), (data_or_empty, ("global", "dict")), ())
+    ok = any(("not", is_dict) in pc and inline in pc for pc, _, _ in mk.raises)
+    chk.require(ok, "R11.4", "non-dict-with-inline-raises", "non-dict data together with inline channel data is "
+                "accepted", mk.func.where)
+    add = chk.summary("LogicalFile", "add_channel")
+    stores = [e for e in add.stores(kind="store_sub") if e.base == inline]
     chk.floor("inline data stores", len(stores), 1)
-    for st in stores:
-        at = rd.node_of(st)
-        v = st.value
-        defs = rd.reaching(v.id, at) if isinstance(v, ast.Name) else [v]
-        ok = isinstance(v, ast.Name) and defs == ["param"]
-        chk.require(ok, "R11.4", "inline-data-stored-verbatim",
-                    f"add_channel stores `{[norm(d) if isinstance(d, ast.AST) else d for d in defs]}` instead of the array "
-                    f"it was given: inline data would differ from the same array supplied at write time (e.g. cast "
-                    f"once with the dtype set at creation)", f"{add.module.relpath}:{st.lineno}")
-        key = st.targets[0].slice
-        chk.require(norm(key) == "ch.dataset_name", "R11.4", "inline-data-keyed-by-dataset-name",
-                    "inline data are not stored under the channel's data set name", f"{add.module.relpath}:{st.lineno}")
+    chan = [c for _, t, _ in add.returns for _, c in alternatives(t)]
+    for e in stores:
+        chk.require(e.value == data, "R11.4", "inline-data-stored-verbatim",
+                    f"add_channel stores `{pp(e.value)[:120]}` instead of the array it was given: inline data would "
+                    f"differ from the same array supplied at write time (e.g. cast once with the dtype set at "
+                    f"creation)", e.where)
+        keys_ok = all(e.key == A(c, "dataset_name") or
+                      (is_call(c) and e.key == call_arg(c, kw="dataset_name") and is_call(e.key, "_get_unique_dataset_name"))
+                      for c in chan) and bool(chan)
+        chk.require(keys_ok, "R11.4", "inline-data-keyed-by-dataset-name",
+                    f"inline data are stored under `{pp(e.key)[:100]}`, not under the new channel's data set name",
+                    e.where)
+        chk.require(("cmp", "is not", data, NONE) in e.pc or not e.pc, "R11.4", "inline-data-stored-when-given",
+                    "inline data are stored under a condition other than `data is not None`", e.where,
+                    nontrivial=False)
